@@ -77,9 +77,42 @@ func Load(goos string, overlay map[string][]byte, patterns ...string) (*Prog, er
 			p.Fset = pk.Fset
 		}
 	}
-	for fn := range ssautil.AllFunctions(prog) {
+	seenFn := map[*ssa.Function]bool{}
+	var addFn func(fn *ssa.Function)
+	addFn = func(fn *ssa.Function) {
+		if fn == nil || seenFn[fn] {
+			return
+		}
+		seenFn[fn] = true
 		if fn.Blocks != nil && fn.Synthetic == "" && p.firstParty(fn) {
 			p.allFns = append(p.allFns, fn)
+		}
+		for _, a := range fn.AnonFuncs {
+			addFn(a)
+		}
+	}
+	for fn := range ssautil.AllFunctions(prog) {
+		addFn(fn)
+	}
+	// methods of generic types are not reported by AllFunctions until instantiated: add their
+	// generic bodies explicitly
+	for _, pk := range pkgs {
+		sp := prog.Package(pk.Types)
+		if sp == nil {
+			continue
+		}
+		for _, m := range sp.Members {
+			t, ok := m.(*ssa.Type)
+			if !ok {
+				continue
+			}
+			n, ok := t.Type().(*types.Named)
+			if !ok {
+				continue
+			}
+			for i := 0; i < n.NumMethods(); i++ {
+				addFn(prog.FuncValue(n.Method(i)))
+			}
 		}
 	}
 	sort.Slice(p.allFns, func(i, j int) bool { return fnKey(p.allFns[i]) < fnKey(p.allFns[j]) })
